@@ -23,7 +23,7 @@ def parse_texts(texts, tag, rule=None):
 def _parse_texts(texts, tag):
     job = {"rules": [{"id": 0, "yaml": TRIVIAL_RULE}],
            "listings": [{"id": n, "text": t} for n, t in enumerate(texts)],
-           "pairs": "all", "stream_only": True, "isolate": True}
+           "pairs": "all", "stream_only": True, "isolate": True, "repeat": True}
     # one rule only: spread the listings over the pool by splitting into pseudo rules
     nrules = min(64, max(1, len(texts) // 20))
     job["rules"] = [{"id": r, "yaml": TRIVIAL_RULE} for r in range(nrules)]
@@ -56,6 +56,8 @@ def case(mode, lines, listing, o, lines2=(), o2=None, rng=()):
     c = {"mode": mode, "lines": lines, "listing": listing, "outcome": o["outcome"],
          "stream": o.get("stream", "") if o["outcome"] == "ok" else "",
          "lines2": list(lines2), "outcome2": "", "stream2": "", "range": list(rng), "reps": 0}
+    # the stream the SAME object hands to the matcher when it is asked a second time
+    c["again"] = o.get("again", {}).get("stream", c["stream"]) if o["outcome"] == "ok" else ""
     if o2 is not None:
         c["outcome2"] = o2["outcome"]
         c["stream2"] = o2.get("stream", "") if o2["outcome"] == "ok" else ""
